@@ -23,7 +23,7 @@ def outcome_of(exc):
 def attr_pairs(attrs, skip=()):
     out = []
     for k, v in attrs.items():
-        if k in skip or str(k).startswith("_"):
+        if k in skip or k in ("_atom_str", "_pos"):      # (pysmiles' private bookkeeping)
             continue
         out.append([str(k), fmt_float(v)])
     out.sort()
